@@ -43,9 +43,16 @@ theorem leafOf_map (s : St μ) : Cmio.leafOf s = toCmio (Sim.leafOf s) := by
   simp only [tblMap] at h0
   rw [h0]; exact leafOf1_map s _
 
-theorem same_step_partial (cfg : Cfg) (s : St μ) (hp : pending (Sim.leafOf s) = false) (hr : RegsOk s.reg) :
-    SameButClock (Sim.step cfg s) (Cmio.step cfg s) := by
+/-- one whole `step` (opcode fetch through the prefix tables + closure), every closure but `BIT n,(HL)` -/
+theorem same_step (cfg : Cfg) (s : St μ) (hb : isBitHl (Sim.leafOf s) = false) (hr : RegsOk s.reg)
+    (hcfg : CfgOk cfg) : SameButClock (Sim.step cfg s) (Cmio.step cfg s) := by
   rw [Sim.step_eq, Cmio.step_eq, leafOf_map]
-  exact same_execLeaf_partial cfg _ hp s hr
+  exact same_execLeaf cfg _ hb s hr hcfg
+
+/-- one whole `step`, every closure: the same but for T, MEMPTR and bits 5 and 3 of F -/
+theorem sameModF53_step (cfg : Cfg) (s : St μ) (hr : RegsOk s.reg) (hcfg : CfgOk cfg) :
+    SameModF53 (Sim.step cfg s) (Cmio.step cfg s) := by
+  rw [Sim.step_eq, Cmio.step_eq, leafOf_map]
+  exact sameModF53_execLeaf cfg _ s hr hcfg
 
 end CmioVsSim
